@@ -530,6 +530,91 @@ pub mod spec {
         ensures match r { Ok(v) => parse_f32_spec(s@) == Some(v), Err(_) => parse_f32_spec(s@) is None },
     { s.parse::<f32>() }
     #[verifier::external_body]
+    pub fn ends_with_lit(s: &str, p: &str) -> (r: bool)
+        ensures r == is_suffix(p@, s@),
+    { s.ends_with(p) }
+    #[verifier::external_body]
+    pub fn strip_prefix_lit<'a>(s: &'a str, p: &str) -> (r: Option<&'a str>)
+        ensures match r { Some(x) => p@.is_prefix_of(s@) && x@ == s@.skip(p@.len() as int), None => !p@.is_prefix_of(s@) },
+    { s.strip_prefix(p) }
+    // the other splitting methods and the other numeric parsers, should a change start using them: deterministic, uninterpreted, and DIFFERENT
+    // functions (so that one used in place of another is noticed)
+    pub uninterp spec fn str_split_terminator(s: Seq<char>, p: Seq<char>) -> Seq<Seq<char>>;
+    pub uninterp spec fn str_rsplit(s: Seq<char>, p: Seq<char>) -> Seq<Seq<char>>;
+    pub uninterp spec fn str_split_inclusive(s: Seq<char>, p: Seq<char>) -> Seq<Seq<char>>;
+    #[verifier::external_body]
+    pub fn split_terminator_lit<'a>(s: &'a str, p: &str) -> (r: Vec<&'a str>)
+        ensures r@.len() == str_split_terminator(s@, p@).len(), forall|i: int| 0 <= i < r@.len() ==> (#[trigger] r@[i])@ == str_split_terminator(s@, p@)[i],
+    { s.split_terminator(p).collect() }
+    #[verifier::external_body]
+    pub fn rsplit_lit<'a>(s: &'a str, p: &str) -> (r: Vec<&'a str>)
+        ensures r@.len() == str_rsplit(s@, p@).len(), forall|i: int| 0 <= i < r@.len() ==> (#[trigger] r@[i])@ == str_rsplit(s@, p@)[i],
+    { s.rsplit(p).collect() }
+    #[verifier::external_body]
+    pub fn split_inclusive_lit<'a>(s: &'a str, p: &str) -> (r: Vec<&'a str>)
+        ensures r@.len() == str_split_inclusive(s@, p@).len(), forall|i: int| 0 <= i < r@.len() ==> (#[trigger] r@[i])@ == str_split_inclusive(s@, p@)[i],
+    { s.split_inclusive(p).collect() }
+    pub uninterp spec fn parse_i8_spec(s: Seq<char>) -> Option<i8>;
+    #[verifier::external_body]
+    pub fn parse_i8_str(s: &str) -> (r: Result<i8, core::num::ParseIntError>)
+        ensures match r { Ok(v) => parse_i8_spec(s@) == Some(v), Err(_) => parse_i8_spec(s@) is None },
+    { s.parse::<i8>() }
+    pub uninterp spec fn parse_i16_spec(s: Seq<char>) -> Option<i16>;
+    #[verifier::external_body]
+    pub fn parse_i16_str(s: &str) -> (r: Result<i16, core::num::ParseIntError>)
+        ensures match r { Ok(v) => parse_i16_spec(s@) == Some(v), Err(_) => parse_i16_spec(s@) is None },
+    { s.parse::<i16>() }
+    pub uninterp spec fn parse_i64_spec(s: Seq<char>) -> Option<i64>;
+    #[verifier::external_body]
+    pub fn parse_i64_str(s: &str) -> (r: Result<i64, core::num::ParseIntError>)
+        ensures match r { Ok(v) => parse_i64_spec(s@) == Some(v), Err(_) => parse_i64_spec(s@) is None },
+    { s.parse::<i64>() }
+    pub uninterp spec fn parse_i128_spec(s: Seq<char>) -> Option<i128>;
+    #[verifier::external_body]
+    pub fn parse_i128_str(s: &str) -> (r: Result<i128, core::num::ParseIntError>)
+        ensures match r { Ok(v) => parse_i128_spec(s@) == Some(v), Err(_) => parse_i128_spec(s@) is None },
+    { s.parse::<i128>() }
+    pub uninterp spec fn parse_isize_spec(s: Seq<char>) -> Option<isize>;
+    #[verifier::external_body]
+    pub fn parse_isize_str(s: &str) -> (r: Result<isize, core::num::ParseIntError>)
+        ensures match r { Ok(v) => parse_isize_spec(s@) == Some(v), Err(_) => parse_isize_spec(s@) is None },
+    { s.parse::<isize>() }
+    pub uninterp spec fn parse_u8_spec(s: Seq<char>) -> Option<u8>;
+    #[verifier::external_body]
+    pub fn parse_u8_str(s: &str) -> (r: Result<u8, core::num::ParseIntError>)
+        ensures match r { Ok(v) => parse_u8_spec(s@) == Some(v), Err(_) => parse_u8_spec(s@) is None },
+    { s.parse::<u8>() }
+    pub uninterp spec fn parse_u16_spec(s: Seq<char>) -> Option<u16>;
+    #[verifier::external_body]
+    pub fn parse_u16_str(s: &str) -> (r: Result<u16, core::num::ParseIntError>)
+        ensures match r { Ok(v) => parse_u16_spec(s@) == Some(v), Err(_) => parse_u16_spec(s@) is None },
+    { s.parse::<u16>() }
+    pub uninterp spec fn parse_u32_spec(s: Seq<char>) -> Option<u32>;
+    #[verifier::external_body]
+    pub fn parse_u32_str(s: &str) -> (r: Result<u32, core::num::ParseIntError>)
+        ensures match r { Ok(v) => parse_u32_spec(s@) == Some(v), Err(_) => parse_u32_spec(s@) is None },
+    { s.parse::<u32>() }
+    pub uninterp spec fn parse_u64_spec(s: Seq<char>) -> Option<u64>;
+    #[verifier::external_body]
+    pub fn parse_u64_str(s: &str) -> (r: Result<u64, core::num::ParseIntError>)
+        ensures match r { Ok(v) => parse_u64_spec(s@) == Some(v), Err(_) => parse_u64_spec(s@) is None },
+    { s.parse::<u64>() }
+    pub uninterp spec fn parse_u128_spec(s: Seq<char>) -> Option<u128>;
+    #[verifier::external_body]
+    pub fn parse_u128_str(s: &str) -> (r: Result<u128, core::num::ParseIntError>)
+        ensures match r { Ok(v) => parse_u128_spec(s@) == Some(v), Err(_) => parse_u128_spec(s@) is None },
+    { s.parse::<u128>() }
+    pub uninterp spec fn parse_usize_spec(s: Seq<char>) -> Option<usize>;
+    #[verifier::external_body]
+    pub fn parse_usize_str(s: &str) -> (r: Result<usize, core::num::ParseIntError>)
+        ensures match r { Ok(v) => parse_usize_spec(s@) == Some(v), Err(_) => parse_usize_spec(s@) is None },
+    { s.parse::<usize>() }
+    pub uninterp spec fn parse_f64_spec(s: Seq<char>) -> Option<f64>;
+    #[verifier::external_body]
+    pub fn parse_f64_str(s: &str) -> (r: Result<f64, core::num::ParseFloatError>)
+        ensures match r { Ok(v) => parse_f64_spec(s@) == Some(v), Err(_) => parse_f64_spec(s@) is None },
+    { s.parse::<f64>() }
+    #[verifier::external_body]
     pub fn parse_f32(s: &String) -> (r: Result<f32, core::num::ParseFloatError>)
         ensures match r { Ok(v) => parse_f32_spec(s@) == Some(v), Err(_) => parse_f32_spec(s@) is None },
     { s.parse::<f32>() }
@@ -660,8 +745,22 @@ pub mod spec {
             <f32 as MulSpec>::obeys_mul_spec(), <f32 as DivSpec>::obeys_div_spec(),
             <f32 as RemSpec>::obeys_rem_spec(),
             <f32 as PartialOrdSpec>::obeys_partial_cmp_spec(), <f32 as PartialEqSpec>::obeys_eq_spec();
+    /// float fact L5 (IEEE comparison duality; checked by Kani `l5_f32_comparison_duality`, loop-free, all pairs of f32): swapping the operands
+    /// mirrors the outcome, `==` is symmetric and agrees with the ordering's Equal
+    pub open spec fn ord_reverse(o: Option<core::cmp::Ordering>) -> Option<core::cmp::Ordering> {
+        match o {
+            Some(core::cmp::Ordering::Less) => Some(core::cmp::Ordering::Greater),
+            Some(core::cmp::Ordering::Greater) => Some(core::cmp::Ordering::Less),
+            Some(core::cmp::Ordering::Equal) => Some(core::cmp::Ordering::Equal),
+            None => None,
+        }
+    }
+    pub broadcast axiom fn ax_f32_cmp_duality(a: f32, b: f32)
+        ensures #[trigger] a.partial_cmp_spec(&b) == ord_reverse(b.partial_cmp_spec(&a));
+    pub broadcast axiom fn ax_f32_eq_symmetric(a: f32, b: f32)
+        ensures #[trigger] a.eq_spec(&b) == b.eq_spec(&a), a.eq_spec(&b) == (a.partial_cmp_spec(&b) == Some(core::cmp::Ordering::Equal));
     pub broadcast group group_float_total {
-        ax_f32_add_req, ax_f32_sub_req, ax_f32_mul_req, ax_f32_div_req, ax_f32_rem_req, ax_f32_obeys, ax_normal_std_ok, ax_f32_constants, ax_sorted_bools, ax_sorted_floats,
+        ax_f32_cmp_duality, ax_f32_eq_symmetric, ax_f32_add_req, ax_f32_sub_req, ax_f32_mul_req, ax_f32_div_req, ax_f32_rem_req, ax_f32_obeys, ax_normal_std_ok, ax_f32_constants, ax_sorted_bools, ax_sorted_floats,
     }
     pub open spec fn f32_add(a: f32, b: f32) -> f32 { a.add_spec(b) }
     pub open spec fn f32_sub(a: f32, b: f32) -> f32 { a.sub_spec(b) }
